@@ -69,6 +69,10 @@ struct GenOpts {
     int fmtout = -1, unifout = -1;          // -1 = random
     bool esmry = false;
     bool rptonly = false, sumthin = false;
+    bool date_conditions = true;            // DAY/MNTH/YEAR comparisons in ACTIONX conditions
+    bool nested_parens = true;
+    bool weltarg_safe = true;               // see DESIGN 8 (known finding: WELTARG on a defaulted WCONPROD target ignores the deck unit system)
+    bool stop_safe = false;                 // every well has >= 2 connections, so that a STOP well can cross-flow and survives a restart as STOP              // more than one parenthesis on one side of a comparison
     sim::Json to_json() const; static GenOpts from_json(const sim::Json& j);
 };
 
